@@ -19,6 +19,12 @@ def ctor_instances():
     for t in ('i32', 'u8'):
         for pat in all_patterns(4):
             for path in PATHS: out.append((t, t, pat, path))
+    # static extents equal to the largest value of a narrow index type
+    from vf.common import hi
+    for t in ('u8', 'u16', 'u32', 'i8', 'i16'):
+        H = hi(t)
+        for pat in ((H,), (H, None), (None, H, None), (H, H)):
+            for path in PATHS: out.append((t, t, pat, path))
     return out
 
 def pair_instances():
